@@ -48,12 +48,13 @@ type Decoder struct {
 	// and needs to be fully buffered in memory.
 	CheckBufferedLiteralFunc func(size int64, nonSync bool) error
 
-	r         *bufio.Reader
-	side      ConnSide
-	err       error
-	literal   bool
-	crlf      bool
-	listDepth int
+	r              *bufio.Reader
+	side           ConnSide
+	err            error
+	literal        bool
+	literalNonSync bool
+	crlf           bool
+	listDepth      int
 }
 
 // NewDecoder creates a new decoder.
@@ -65,6 +66,15 @@ func (dec *Decoder) mustUnreadByte() {
 	if err := dec.r.UnreadByte(); err != nil {
 		panic(fmt.Errorf("imapwire: failed to unread byte: %v", err))
 	}
+}
+
+// UnreadNonSyncLiteral returns true if the peer has announced a
+// non-synchronizing literal whose payload has not been read. The payload is
+// already in flight and cannot be told apart from what follows it: the only
+// safe options left are to read it or to close the connection (RFC 7888
+// section 4).
+func (dec *Decoder) UnreadNonSyncLiteral() bool {
+	return dec.literal && dec.literalNonSync
 }
 
 // Err returns the decoder error, if any.
@@ -592,6 +602,7 @@ func (dec *Decoder) LiteralReader() (lit *LiteralReader, nonSync, ok bool) {
 		return nil, false, false
 	}
 	dec.literal = true
+	dec.literalNonSync = nonSync
 	lit = &LiteralReader{
 		dec:  dec,
 		size: size,
